@@ -16,6 +16,7 @@ CONFIG = {
             "name": "conc.seq", "harness": "conch", "driver": "drv_conc", "flush": True, "crash_signature": "crash-or-deadlock:SchemaCache.Schema",
             "n": {"quick": 24000, "thorough": 400000, "search": 40000},
             "shards": {"quick": 8, "thorough": 16, "search": 8},
+            "timeout_s": 3600, "driver_timeout_s": 3600,
             "rule": "seeded descriptor graphs of 1..9 schemas (object / oneof-wrapper messages, enums; forward-only DAGs with shared "
                     "leaves, rings with back edges, two disjoint halves, arbitrary; array / map wrappers; failing members: unsupported "
                     "google type, non-string map key, enum without *_UNSPECIFIED) built into real descriptors with protodesc, and (every "
@@ -28,9 +29,9 @@ CONFIG = {
         {
             "name": "conc.race", "harness": "conch", "driver": None, "race": True,
             "env": {"CONCH_MODE": "race", "CONCH_REPO": _REPO, "CONCH_OVERLAY": _OVERLAY},
-            "n": {"quick": 128, "thorough": 4800, "search": 64},
-            "shards": {"quick": 8, "thorough": 8, "search": 8},
-            "timeout_s": 3000,
+            "n": {"quick": 128, "thorough": 2400, "search": 64},
+            "shards": {"quick": 8, "thorough": 16, "search": 8},
+            "timeout_s": 7200,
             "rule": "SEARCH only (never the proof): each op starts a child process built with -race; per child 6 (thorough 12) rounds; a "
                     "round releases 8..64 goroutines by a barrier on one fresh codec (round 0 of a 'global' child: the package-level "
                     "j5codec.Global on its first use in the process) and one fresh SchemaCache; every goroutine performs a shuffled list "
@@ -38,7 +39,7 @@ CONFIG = {
                     "sub-schemas (test.schema.v1.*), recursive (j5.schema.v1.*, NestedExposed), disjoint, generated descriptor graphs "
                     "(dynamicpb), mixed; every result is compared with the result of the same call alone on a fresh codec (JSON "
                     "compared up to object key order). Failures: a race detector report (signature race:<function of the write>), "
-                    "fatal 'concurrent map', crash, deadlock (25 s watchdog per round), differing result, unlinked ref observed. Non-trivial = a "
+                    "fatal 'concurrent map', crash, deadlock (60 s watchdog per round), differing result, unlinked ref observed. Non-trivial = a "
                     "child that completed calls; distinct by op text.",
         },
     ],
@@ -67,3 +68,29 @@ CONFIG = {
         "a panic inside a build is rolled back by the same deferred function as an error; the model has no separate panic outcome",
     ],
 }
+
+
+def extra(ctx):
+    """Summarises the regenerated E7 table in the evidence (the obligations themselves are theorems)."""
+    import re
+    lean = os.path.join(_VERIF, "lean") if _REPO == "/repo" else os.path.join(ctx["work"], "lean")
+    path = os.path.join(lean, "J5V", "Generated", "LocksFacts.lean")
+    cov = {}
+    try:
+        src = open(path).read()
+        rows = re.findall(r"^  ⟨(\d+), (true|false), (true|false), (true|false), (none|some \d+), \"([^\"]*)\"", src, flags=re.M)
+        must = [r for r in rows if "true" in r[1:4]]
+        m = re.search(r"def locations : List String := \[(.*)\]", src)
+        cov["e7_locations"] = re.findall(r"\"([^\"]*)\"", m.group(1)) if m else []
+        cov["e7_accesses"] = len(rows)
+        cov["e7_protected_accesses"] = len(must)
+        cov["e7_protected_unguarded"] = len([r for r in must if r[4] == "none"])
+        cov["e7_published_reads_outside_lock"] = len([r for r in rows if r[4] == "none" and "true" not in r[1:4]])
+        cov["e7_lock_sites"] = re.findall(r"^  ⟨\"([^\"]*)\", (\d+), (true|false), (true|false), (true|false)⟩", src, flags=re.M)
+        m = re.search(r"def reachableFunctions : Nat := (\d+)", src)
+        cov["e7_reachable_functions"] = int(m.group(1)) if m else 0
+        m = re.search(r"def requiresLock : List String := \[(.*)\]", src)
+        cov["e7_requires_lock_helpers"] = len(re.findall(r"\"", m.group(1))) // 2 if m else 0
+    except OSError as e:
+        cov["e7_error"] = str(e)
+    return {"coverage": cov}
